@@ -17,6 +17,10 @@ Judge(e) ==
          ELSE IF ~same /\ e.n # 2 THEN "C02 distinct keys " \o e.r1 \o " and " \o e.r2 \o " alias: one overwrote the other"
          ELSE IF ~same /\ (e.g1 # "v1" \/ e.g2 # "v2") THEN "C02 distinct keys " \o e.r1 \o " and " \o e.r2 \o " shadow each other on lookup"
          ELSE IF ~same /\ (e.p2 # "v2" \/ e.left # 1 \/ e.g1b # "v1") THEN "C02 removing " \o e.r2 \o " touched the distinct key " \o e.r1
+         ELSE IF same /\ (e.in2 # 1 \/ e.a2 # 0 \/ e.an # 1 \/ e.ag1 # "v1")
+         THEN "C02 with " \o e.r1 \o " stored, membership / add of the equal key " \o e.r2 \o " does not see it"
+         ELSE IF ~same /\ (e.in2 # 0 \/ e.a2 # 1 \/ e.an # 2 \/ e.ag1 # "v1" \/ e.ag2 # "a2")
+         THEN "C02 with " \o e.r1 \o " stored, membership / add of the distinct key " \o e.r2 \o " is confused with it"
          ELSE IF e.types_ok # 1 THEN "C02 iteration returned a key that is not equal to / not of the type of the stored key (" \o e.r1 \o ", " \o e.r2 \o ")"
          ELSE IF e.rev_ok # 1 THEN "C02 sorted iteration forward and reverse disagree for " \o e.r1 \o ", " \o e.r2
          ELSE "ok"
